@@ -4,12 +4,12 @@
 package main
 
 import (
-	"os"
-	"sort"
 	"context"
 	"errors"
 	"fmt"
 	"net/http"
+	"os"
+	"sort"
 	"strings"
 
 	"github.com/TeaEntityLab/fpGo/v2/network"
@@ -18,14 +18,14 @@ import (
 
 type world struct {
 	lastMethod string
-	log     []string // call log of the request in flight: interceptor names, then "T<k>"
-	calls   int
-	ics     map[string]*network.Interceptor
-	clients []*http.Client
-	https   []*network.SimpleHTTPDef
-	apis    []*network.SimpleAPIDef
-	model   [][]string // per instance: registered interceptor names, in order
-	lastHdr http.Header
+	log        []string // call log of the request in flight: interceptor names, then "T<k>"
+	calls      int
+	ics        map[string]*network.Interceptor
+	clients    []*http.Client
+	https      []*network.SimpleHTTPDef
+	apis       []*network.SimpleAPIDef
+	model      [][]string // per instance: registered interceptor names, in order
+	lastHdr    http.Header
 }
 
 type stubT struct {
@@ -41,6 +41,9 @@ func (t *stubT) RoundTrip(req *http.Request) (*http.Response, error) {
 }
 
 var errRecursion = errors.New("more than 60 interceptor calls in one request")
+
+// initialCommon names the interceptors of the caller-owned slice both instances are constructed from.
+var initialCommon = []string{"i0"}
 
 func newWorld() *world {
 	w := &world{ics: map[string]*network.Interceptor{}}
@@ -64,15 +67,17 @@ func newWorld() *world {
 	mk("i3F", true)
 	mk("i0", false)
 	// both instances are built from ONE caller-owned slice with spare capacity
-	common := make([]*network.Interceptor, 1, 4)
-	common[0] = w.ics["i0"]
+	common := make([]*network.Interceptor, 0, len(initialCommon)+3)
+	for _, n := range initialCommon {
+		common = append(common, w.ics[n])
+	}
 	for k := 0; k < 2; k++ {
 		c := &http.Client{Transport: &stubT{w, k}}
 		w.clients = append(w.clients, c)
 		h := network.NewSimpleHTTPWithClientAndInterceptors(c, common...)
 		w.https = append(w.https, h)
 		w.apis = append(w.apis, network.NewSimpleAPIWithSimpleHTTP("http://api.test", h))
-		w.model = append(w.model, []string{"i0"})
+		w.model = append(w.model, append([]string{}, initialCommon...))
 	}
 	// two spare clients per instance to switch to (an http.Client belongs to one SimpleHTTP: wrapping the
 	// same client by two instances chains them, which is outside this property)
@@ -319,83 +324,18 @@ func progNames(all []op, prog []step) []string {
 	return n
 }
 
-// defaultConstructors: NewSimpleHTTP() and NewSimpleAPI(url) build independent instances: three of them,
-// each given its own stub client, register different interceptors; a request through one runs exactly
-// its own interceptors. All orders of the three registrations and every instance as the requester.
-func defaultConstructors(r *lib.Report) int64 {
-	var n int64
-	for _, order := range [][]int{{0, 1, 2}, {0, 2, 1}, {1, 0, 2}, {1, 2, 0}, {2, 0, 1}, {2, 1, 0}} {
-		var log []string
-		var hs []*network.SimpleHTTPDef
-		fail := ""
-		p := lib.Catch(func() {
-			h0, h1 := network.NewSimpleHTTP(), network.NewSimpleHTTP()
-			api := network.NewSimpleAPI("http://api.test")
-			hs = []*network.SimpleHTTPDef{h0, h1, api.GetSimpleHTTP()}
-			if hs[2] == nil || hs[2] == h0 || hs[2] == h1 || h0 == h1 {
-				fail = "NewSimpleHTTP / NewSimpleAPI handed out the same SimpleHTTP twice"
-				return
-			}
-			for k, h := range hs {
-				k := k
-				h.SetHTTPClient(&http.Client{Transport: roundTripFunc(func(req *http.Request) (*http.Response, error) {
-					log = append(log, fmt.Sprintf("T%d", k))
-					return &http.Response{StatusCode: 200, Status: "200 OK", Proto: "HTTP/1.1", ProtoMajor: 1, ProtoMinor: 1, Header: http.Header{}, Body: http.NoBody, Request: req}, nil
-				})})
-			}
-			for _, k := range order {
-				k := k
-				var ic network.Interceptor = func(req *http.Request) error { log = append(log, fmt.Sprintf("i%d", k)); return nil }
-				hs[k].AddInterceptor(&ic)
-			}
-			for k, h := range hs {
-				log = nil
-				n++
-				if err := h.Get("http://api.test/x").Err; err != nil {
-					fail = fmt.Sprintf("request through instance %d failed: %v", k, err)
-					return
-				}
-				if want := fmt.Sprintf("[i%d T%d]", k, k); fmt.Sprint(log) != want {
-					fail = fmt.Sprintf("registration order %v: a request through instance %d gave the call log %v, want %s", order, k, log, want)
-					return
-				}
-			}
-		})
-		if p != "" {
-			fail = "panic: " + p
-		}
-		if fail != "" {
-			r.Violation("C18|default-constructors|independent-instances", fail, map[string]interface{}{"order": order})
-		}
-	}
-	return n
-}
-
-type roundTripFunc func(req *http.Request) (*http.Response, error)
-
-func (f roundTripFunc) RoundTrip(req *http.Request) (*http.Response, error) { return f(req) }
-
-func main() {
-	r := lib.NewReport("C18")
-	all := ops()
-	depth := 4
-	if r.Tier == "thorough" {
-		depth = 5
-	}
-	seen := map[string]bool{}
+// search: breadth-first over histories from the world described by initialCommon.
+func search(r *lib.Report, all []op, depth int, seen map[string]bool, trans *int64, samples *lib.Samples) {
 	_, k0 := run(all, nil)
 	seen[k0] = true
 	frontier := [][]step{{}}
-	var trans int64
-	var samples lib.Samples
-	samples.N = 5
 	for d := 0; d < depth; d++ {
 		var next [][]step
 		for _, prog := range frontier {
 			for oi := range all {
 				for s := 0; s < 2; s++ {
 					np := append(append([]step{}, prog...), step{oi, s})
-					trans++
+					*trans++
 					lib.Beat(nil)
 					fail, key := run(all, np)
 					if fail != "" {
@@ -445,6 +385,108 @@ func main() {
 			}
 		}
 		frontier = next
+	}
+}
+
+// defaultConstructors: NewSimpleHTTP() and NewSimpleAPI(url) build independent instances: three of them,
+// each given its own stub client, register different interceptors; a request through one runs exactly
+// its own interceptors. All orders of the three registrations and every instance as the requester.
+func defaultConstructors(r *lib.Report) int64 {
+	var n int64
+	for _, order := range [][]int{{0, 1, 2}, {0, 2, 1}, {1, 0, 2}, {1, 2, 0}, {2, 0, 1}, {2, 1, 0}} {
+		var log []string
+		var hs []*network.SimpleHTTPDef
+		fail := ""
+		// Default-constructed instances send through http.DefaultTransport: it is replaced by a stub for the
+		// duration, so the clients the constructors made can be used as they are (orders starting with 0)
+		savedTransport, savedClientTransport := http.DefaultTransport, http.DefaultClient.Transport
+		http.DefaultTransport = roundTripFunc(func(req *http.Request) (*http.Response, error) {
+			log = append(log, "Tdefault")
+			return &http.Response{StatusCode: 200, Status: "200 OK", Proto: "HTTP/1.1", ProtoMajor: 1, ProtoMinor: 1, Header: http.Header{}, Body: http.NoBody, Request: req}, nil
+		})
+		p := lib.Catch(func() {
+			h0, h1 := network.NewSimpleHTTP(), network.NewSimpleHTTP()
+			api := network.NewSimpleAPI("http://api.test")
+			hs = []*network.SimpleHTTPDef{h0, h1, api.GetSimpleHTTP()}
+			if hs[2] == nil || hs[2] == h0 || hs[2] == h1 || h0 == h1 {
+				fail = "NewSimpleHTTP / NewSimpleAPI handed out the same SimpleHTTP twice"
+				return
+			}
+			for k, h := range hs {
+				k := k
+				if order[0] == 0 {
+					break // half of the orders keep the clients the constructors made (see below)
+				}
+				h.SetHTTPClient(&http.Client{Transport: roundTripFunc(func(req *http.Request) (*http.Response, error) {
+					log = append(log, fmt.Sprintf("T%d", k))
+					return &http.Response{StatusCode: 200, Status: "200 OK", Proto: "HTTP/1.1", ProtoMajor: 1, ProtoMinor: 1, Header: http.Header{}, Body: http.NoBody, Request: req}, nil
+				})})
+			}
+			for _, k := range order {
+				k := k
+				var ic network.Interceptor = func(req *http.Request) error { log = append(log, fmt.Sprintf("i%d", k)); return nil }
+				hs[k].AddInterceptor(&ic)
+			}
+			for k, h := range hs {
+				log = nil
+				n++
+				if err := h.Get("http://api.test/x").Err; err != nil {
+					fail = fmt.Sprintf("request through instance %d failed: %v", k, err)
+					return
+				}
+				want := fmt.Sprintf("[i%d T%d]", k, k)
+				if order[0] == 0 {
+					want = fmt.Sprintf("[i%d Tdefault]", k)
+				}
+				if fmt.Sprint(log) != want {
+					fail = fmt.Sprintf("registration order %v: a request through instance %d gave the call log %v, want %s", order, k, log, want)
+					return
+				}
+			}
+		})
+		if http.DefaultClient.Transport != savedClientTransport && fail == "" {
+			fail = "constructing default instances replaced the Transport of the process-wide http.DefaultClient"
+		}
+		http.DefaultTransport, http.DefaultClient.Transport = savedTransport, savedClientTransport
+		if p != "" {
+			fail = "panic: " + p
+		}
+		if fail != "" {
+			r.Violation("C18|default-constructors|independent-instances", fail, map[string]interface{}{"order": order})
+		}
+	}
+	return n
+}
+
+type roundTripFunc func(req *http.Request) (*http.Response, error)
+
+func (f roundTripFunc) RoundTrip(req *http.Request) (*http.Response, error) { return f(req) }
+
+func main() {
+	r := lib.NewReport("C18")
+	all := ops()
+	depth := 4
+	if r.Tier == "thorough" {
+		depth = 5
+	}
+	seen := map[string]bool{}
+	var trans int64
+	var samples lib.Samples
+	samples.N = 5
+	type worldCfg struct {
+		common []string
+		depth  int
+	}
+	shallow := 2
+	if r.Tier == "thorough" {
+		shallow = 3
+	}
+	for _, wc := range []worldCfg{{[]string{"i0"}, depth}, {[]string{"i0", "i1", "i2"}, shallow}} {
+		initialCommon = wc.common
+		search(r, all, wc.depth, seen, &trans, &samples)
+		if os.Getenv("C18_DEBUG") != "" {
+			fmt.Fprintf(os.Stderr, "world %v depth %d: states so far %d, transitions %d\n", wc.common, wc.depth, len(seen), trans)
+		}
 	}
 	if f := os.Getenv("C18_DUMP"); f != "" {
 		var ks []string
